@@ -74,7 +74,7 @@ let err_name = function
 
 (* [live id]: the module's interface has been set (its functions can be called); [values]: print
    what calling/reading through an import yields *)
-let show_binding ?(nulled=false) ?(unsure=(fun _ -> false)) live values ((k, n), d) =
+let show_binding ?(nulled=false) ?(unsure=(fun _ -> None)) live values ((k, n), d) =
   let kc = match k with KImport -> "i" | KExport -> "e" | KForward -> "f" | _ -> "?" in
   let n = int_of_nat n in
   let tag, v = match d with
@@ -89,8 +89,9 @@ let show_binding ?(nulled=false) ?(unsure=(fun _ -> false)) live values ((k, n),
                   else Some (string_of_int (1000 + 16 * int_of_nat id + n))
        | KData -> Printf.sprintf "M%d.%d" (int_of_nat id) (int_of_nat idx), Some (string_of_int (5000 + 16 * int_of_nat id + n))
        | _ -> "null", None) in
-  let v = match v, d with
-    | Some _, Some (DMod (_, _, KFunc) | DExt _) when unsure n -> Some "?"
+  let v = match v, d, unsure n with
+    | Some vold, Some (DMod (_, _, KFunc) | DExt _), Some vnew when vold <> "dead" && vnew <> vold ->
+      Some (Printf.sprintf "?%s|%s" vold vnew)
     | _ -> v in
   match k, v with
   | KImport, Some v when values -> Printf.sprintf "%s%d=%s/%s" kc n tag v
@@ -150,10 +151,12 @@ let run_history line =
   let b = Buffer.create 256 in
   let st = ref init in
   let nulled = ref [] in   (* modules that went through a NULL-interface link *)
-  (* (module, name): an import bound to a MIR function by a link step DURING which (after the binding) the
-     resolver loaded a newer definition of the name: the address is the older definition's, a call may have
-     been inlined from the newer one (process_inlines follows the table entry, updated in place); the call
-     value is printed as `?` and not compared (design/C13.md, Round 3 wave 5) *)
+  (* known finding reent-load-redef-inline.  ((module, name), value of the newer function): an import bound
+     (to a function or an external) by a link step DURING which, after the binding, a load performed by the
+     resolver REDEFINED the name with a MIR function: the address stays the older definition's, but
+     process_inlines follows the table entry (updated in place) and may inline the NEWER body.  The call
+     value is printed as `?<older>|<newer>`: the check accepts exactly these two values and reports the
+     newer one as the known finding (design/C13.md, Round 3 wave 5) *)
   let unsure = ref [] in
   let log = ref [] in      (* pubs of the trace so far: every definition made visible, oldest first *)
   let first = ref true in
@@ -166,7 +169,7 @@ let run_history line =
            if not quiet then List.iter (fun (id, bs) ->
                Buffer.add_string b (Printf.sprintf " m%d{%s}" (int_of_nat id)
                                       (String.concat " " (List.map (show_binding ~nulled:(List.mem id !nulled)
-                                                                      ~unsure:(fun n -> List.mem (id, n) !unsure) live true) bs))))
+                                                                      ~unsure:(fun n -> List.assoc_opt (id, n) !unsure) live true) bs))))
                (by_id s'.linked) in
          match ho with
          | LinkRe (sc, fb) ->
@@ -179,7 +182,11 @@ let run_history line =
             | RLinked (bs, res) ->
               List.iter (fun (id, l) -> List.iter (fun ((k, n), d) ->
                   match k, d with
-                  | KImport, Some (DMod (_, _, KFunc) | DExt _) when assoc s'.env n <> d -> unsure := (id, int_of_nat n) :: !unsure
+                  | KImport, Some (DMod (_, _, KFunc) | DExt _) when assoc s'.env n <> d ->
+                    (match assoc s'.env n with
+                     | Some (DMod (id', _, KFunc)) ->
+                       unsure := ((id, int_of_nat n), string_of_int (1000 + 16 * int_of_nat id' + int_of_nat n)) :: !unsure
+                     | _ -> ())
                   | _ -> ()) l) bs;
               log := !log @ pubs_of_re before sc s' res;
               Buffer.add_string b ("ok " ^ show_rlog res);
@@ -211,7 +218,7 @@ let run_history line =
            if not quiet then List.iter (fun (id, bs) ->
                Buffer.add_string b (Printf.sprintf " m%d{%s}" (int_of_nat id)
                                       (String.concat " " (List.map (show_binding ~nulled:(List.mem id !nulled)
-                                                                      ~unsure:(fun n -> List.mem (id, n) !unsure) live true) bs))))
+                                                                      ~unsure:(fun n -> List.assoc_opt (id, n) !unsure) live true) bs))))
              (by_id s'.linked)
          | OBound (bs, res) ->
            Buffer.add_string b ("ok " ^ show_res res);
